@@ -112,8 +112,12 @@ def earlier_session(root, site):
     similar names lie next to it (only the log itself may be touched)."""
     if not (site["config"] or {}).get("debug_log") and "--debug_log" not in site["argv"]:
         return
-    with open(os.path.join(root, "fortls_debug.log"), "w") as f:
-        f.write("DEBUG:fortls:log of an earlier session\n")
+    if site.get("log_is_link"):
+        # what stands at the log's path is a symbolic link to a file elsewhere: that file is not the debug log
+        os.symlink(os.path.join(os.path.dirname(root), "canary", "keep.txt"), os.path.join(root, "fortls_debug.log"))
+    else:
+        with open(os.path.join(root, "fortls_debug.log"), "w") as f:
+            f.write("DEBUG:fortls:log of an earlier session\n")
     for n in LOG_NEIGHBOURS:
         with open(os.path.join(root, n), "w") as f:
             f.write("a file of the user: " + n + "\n")
@@ -218,6 +222,8 @@ def sites(P):
     S["config_scalars"] = w("#if Y\n#endif\n", config={"nthreads": P, "max_line_length": P, "recursion_limit": 1000,
                                                        "pp_defs": {"Y": "1"}, "debug_log": True})
     S["function_macro_noparams"] = w(f"#define X() {P}\n  v1 = X()\n")
+    S["debug_log_symlink"] = dict(w(f"#define X {P}\n", config={"debug_log": True}), log_is_link=True)
+    S["debug_log_symlink_cli"] = dict(w(f"#define X {P}\n", argv=["--debug_log"]), log_is_link=True)
     S["cli_paths"] = w("", argv=["--source_dirs", P, ".", "--include_dirs", P, "--excl_paths", P])
     S["config_file_names"] = w("", config={"debug_log": P, "hover_language": P, "config": P, "source_dirs": ["."]})
     # conditions that are nothing but numbers and operators (no identifier for an evaluator to stumble over)
